@@ -60,3 +60,61 @@ B("c13-lookup-key-reversed", "C13", sub("time_conversion.py", 'f"{time_unit}_to_
 B("c13-independent-yearly-rule", "C13", append("transfers/kindergeld.py", "def kindergeld_y(kindergeld_anz_ansprüche: int, kindergeld_params: dict) -> float:\n    return 11.5 * kindergeld_anz_ansprüche\n"), "Q3")
 T("c13-converter-respelled", "C13", sub("time_conversion.py", "    return value / _M_PER_Y\n", "    return value * (1 / _M_PER_Y)\n"))
 T("c13-days-constant-respelled", "C13", sub("time_conversion.py", "_D_PER_Y = 365.25", "_D_PER_Y = 1461 / 4"))
+
+# ------------------------------------------------------------------ C01 / C02
+B("c01-int-literal-in-float-rule", "C01", resub("transfers/unterhaltsvors.py", r"kind_unterh_erhalt_m,\s*0\.0\s*\)", "kind_unterh_erhalt_m, 0)"), "T1")
+B("c01-column-minus-its-max", "C01", sub("transfers/arbeitsl_geld_2/kindergelduebertrag.py", "    return join_numpy(\n        p_id_kindergeld_empf,\n        p_id,\n        _mean_kindergeld_per_child_m,\n        value_if_foreign_key_is_missing=0.0,\n    )", "    out = join_numpy(\n        p_id_kindergeld_empf,\n        p_id,\n        _mean_kindergeld_per_child_m,\n        value_if_foreign_key_is_missing=0.0,\n    )\n    return out - _mean_kindergeld_per_child_m.max()", count=1), "W2")
+B("c01-join-by-searchsorted", "C01", sub("shared.py", "    indices = numpy.argmax(padded_matches_foreign_key, axis=1)", "    indices = numpy.searchsorted(primary_key, foreign_key)"), "W3")
+B("c01-position-as-value", "C01", sub("aggregation_numpy.py", "            out[map_p_id_to_position[id_receiver]] += column[iloc]", "            out[map_p_id_to_position[id_receiver]] += column[iloc] + 0 * iloc"), "W1")
+B("c01-debug-concat-by-label", "C01", sub("interface.py", "        results = pd.DataFrame({**data, **results})", "        results = pd.concat([pd.DataFrame(data), pd.DataFrame(results)], axis=1)"), "W4")
+T("c01-float-wrap", "C01", sub("transfers/elterngeld.py", "    else:\n        out = 0.0\n    return out\n\n\ndef elterngeld_mehrlingsbonus_m", "    else:\n        out = 0.0\n    return float(out)\n\n\ndef elterngeld_mehrlingsbonus_m"))
+T("c01-new-whole-column-rule-with-join", "C01", append("transfers/kindergeld.py", "@policy_info(skip_vectorization=True)\ndef kindergeld_empf_alter(\n    p_id_kindergeld_empf: numpy.ndarray[int], p_id: numpy.ndarray[int], alter: numpy.ndarray[int]\n) -> numpy.ndarray[int]:\n    return join_numpy(p_id_kindergeld_empf, p_id, alter, value_if_foreign_key_is_missing=0)\n"))
+B("c02-rule-writes-module-cache", "C02", append("transfers/kindergeld.py", "_cache = {}\n\n\ndef kindergeld_cached_m(kindergeld_m: float) -> float:\n    _cache[kindergeld_m] = kindergeld_m\n    return _cache[kindergeld_m]\n"), "P")
+B("c02-rule-updates-params", "C02", sub("transfers/kindergeld.py", "def kindergeld_ohne_staffelung_m(\n", "def kindergeld_doubled_m(kindergeld_m: float, kindergeld_params: dict) -> float:\n    kindergeld_params.update({'seen': True})\n    return 2 * kindergeld_m\n\n\ndef kindergeld_ohne_staffelung_m(\n", count=1), "P")
+B("c02-rule-reads-clock", "C02", append("transfers/kindergeld.py", "import datetime\n\n\ndef kindergeld_heute_m(kindergeld_m: float) -> float:\n    return kindergeld_m if datetime.date.today().year > 2000 else 0.0\n"), "P")
+T("c02-rule-reads-module-tuple", "C02", append("transfers/kindergeld.py", "_STUFEN = (1, 2, 3)\n\n\ndef kindergeld_stufe(kindergeld_anz_ansprüche: int) -> int:\n    return _STUFEN[min(kindergeld_anz_ansprüche, 2)]\n"))
+
+# ------------------------------------------------------------------ C05
+B("c05-string-annotation", "C05", resub("transfers/kindergeld.py", r"\A", "from __future__ import annotations\n"), "A1")
+B("c05-unsupported-ndarray-annotation", "C05", sub("transfers/unterhaltsvors.py", ") -> numpy.ndarray[bool]:", ") -> numpy.typing.NDArray[numpy.bool_]:", count=1), "A1")
+B("c05-merge-order-rules-before-time", "C05", sub("functions_loader.py", "        **aggregate_by_p_id_functions,\n        **time_conversion_functions,\n        **vectorized_functions,\n        **aggregate_by_group_functions,", "        **aggregate_by_p_id_functions,\n        **vectorized_functions,\n        **time_conversion_functions,\n        **aggregate_by_group_functions,"), "M")
+B("c05-warning-dropped", "C05", sub("interface.py", "    if columns_overriding_functions:\n        warnings.warn(", "    if columns_overriding_functions and check_minimal_specification != \"ignore\":\n        warnings.warn("), "F-warn")
+B("c05-int-rule-returns-float", "C05", sub("demographic_vars.py", "def kind_bis_2(alter: int, kind: bool) -> bool:", "def alter_halbjahre(alter: int) -> int:\n    return alter / 0.5\n\n\ndef kind_bis_2(alter: int, kind: bool) -> bool:"), "T2-lossless")
+
+# ------------------------------------------------------------------ C06 / C14
+B("c06-memoised-yaml-loader", "C06", [sub("policy_environment.py", "import copy\n", "import copy\nimport functools\n", count=1), sub("policy_environment.py", "def _load_parameter_group_from_yaml(\n", "@functools.lru_cache(maxsize=None)\ndef _load_parameter_group_from_yaml(\n")], "E3")
+B("c06-rule-writes-params", "C06", sub("transfers/kindergeld.py", "def kindergeld_ohne_staffelung_m(\n", "def kindergeld_flag_m(kindergeld_m: float, kindergeld_params: dict) -> float:\n    kindergeld_params['seen'] = True\n    return kindergeld_m\n\n\ndef kindergeld_ohne_staffelung_m(\n", count=1), "P-params")
+B("c06-rule-writes-params-through-alias", "C06", sub("transfers/kindergeld.py", "def kindergeld_ohne_staffelung_m(\n", "def kindergeld_flag_m(kindergeld_m: float, kindergeld_params: dict) -> float:\n    p = kindergeld_params['kindergeld']\n    p[99] = 0\n    return kindergeld_m\n\n\ndef kindergeld_ohne_staffelung_m(\n", count=1), "P-params")
+B("c06-functions-dict-merged-in-place", "C06", sub("functions_loader.py", "            functions = {**functions, **source}", "            functions = functions or source\n            functions.update(source)"), "E1")
+T("c06-memoised-loader-with-deepcopy", "C06", [sub("policy_environment.py", "import copy\n", "import copy\nimport functools\n", count=1), sub("policy_environment.py", "    raw_group_data = yaml.load(\n        (yaml_path / f\"{group}.yaml\").read_text(encoding=\"utf-8\"),\n        Loader=yaml.CLoader,\n    )\n", "    raw_group_data = copy.deepcopy(_read_group(yaml_path, group))\n"), append("policy_environment.py", "@functools.lru_cache(maxsize=None)\ndef _read_group(yaml_path, group):\n    return yaml.load((yaml_path / f\"{group}.yaml\").read_text(encoding=\"utf-8\"), Loader=yaml.CLoader)\n")])
+B("c14-dict-input-not-copied", "C14", sub("interface.py", "        # Do not modify the dictionary of the caller when converting data types.\n        data = dict(data)\n", "        pass\n"), "E1")
+B("c14-exec-in-module-namespace", "C14", sub("vectorization.py", "    scope = dict(func.__globals__)", "    scope = func.__globals__"), "E")
+B("c14-module-level-memo", "C14", [sub("policy_environment.py", "def load_functions_for_date(date):", "_FUNCTIONS_BY_DATE = {}\n\n\ndef load_functions_for_date(date):"), sub("policy_environment.py", "    # Using TIME_DEPENDENT_FUNCTIONS here leads to failing tests.\n    functions = {}\n", "    if date in _FUNCTIONS_BY_DATE:\n        return _FUNCTIONS_BY_DATE[date]\n    functions = {}\n    _FUNCTIONS_BY_DATE[date] = functions\n")], "E2")
+B("c14-clock-in-loader", "C14", sub("policy_environment.py", "    date = _parse_date(date)\n", "    date = _parse_date(date) if date is not None else datetime.date.today()\n", count=1), "P-nondet")
+T("c14-dict-input-copied-differently", "C14", sub("interface.py", "        data = dict(data)\n    elif isinstance(data, pd.Series)", "        data = {k: v for k, v in data.items()}\n    elif isinstance(data, pd.Series)"))
+
+# ------------------------------------------------------------------ C09
+B("c09-elseless-augassign-in-rule", "C09", sub("transfers/rente.py", "    if wohnort_ost:\n        out = entgeltp_ost + entgeltp_update_lohn\n    else:\n        out = entgeltp_ost\n", "    out = entgeltp_ost\n    if wohnort_ost:\n        out += entgeltp_update_lohn\n"), "S1")
+B("c09-reduction-over-list-of-columns", "C09", sub("transfers/rente.py", "out = min(out, _ges_rente_frauen_altersgrenze)", "out = min([out, _ges_rente_frauen_altersgrenze])", count=9), "S4")
+B("c09-rewriter-cache", "C09", [sub("vectorization.py", "BACKEND_TO_MODULE = {", "_CACHE = {}\nBACKEND_TO_MODULE = {"), sub("vectorization.py", "    module = _module_from_backend(backend)\n    tree = _make_vectorizable_ast(func, module=module)\n\n    # recreate scope", "    module = _module_from_backend(backend)\n    if func.__name__ in _CACHE:\n        return _CACHE[func.__name__]\n    _CACHE[func.__name__] = func\n    tree = _make_vectorizable_ast(func, module=module)\n\n    # recreate scope")], "E2v")
+T("c09-two-argument-max", "C09", sub("transfers/rente.py", "out = min(out, _ges_rente_frauen_altersgrenze)", "out = min(_ges_rente_frauen_altersgrenze, out)", count=1))
+T("c09-elseless-plain-assignment", "C09", sub("transfers/rente.py", "    if wohnort_ost:\n        out = entgeltp_ost + entgeltp_update_lohn\n    else:\n        out = entgeltp_ost\n", "    out = entgeltp_ost\n    if wohnort_ost:\n        out = entgeltp_ost + entgeltp_update_lohn\n"))
+
+# ------------------------------------------------------------------ C10
+B("c10-decorator-loses-rounding-key", "C10", sub("social_insurance_contributions/eink_grenzen.py", '@policy_info(\n    start_date="2022-10-01",\n    name_in_dag="minijob_grenze",\n    params_key_for_rounding="sozialv_beitr",\n)', '@policy_info(start_date="2022-10-01", name_in_dag="minijob_grenze")'), "SR")
+B("c10-yaml-key-not-transferred", "C10", sub("policy_environment.py", 'rounding_parameters = ["direction", "base", "to_add_after_rounding"]', 'rounding_parameters = ["direction", "base"]'), "RW")
+B("c10-derived-function-keeps-rounding-key", "C10", sub("time_conversion.py", '        func.__info__ = {\n            key: value\n            for key, value in info.items()\n            if key != "params_key_for_rounding"\n        }', "        func.__info__ = dict(info)"), "ONCE")
+B("c10-up-rounds-with-floor", "C10", sub("interface.py", "                rounded_out = base * np.ceil(out / base)", "                rounded_out = base * np.floor(out / base)"), "WRAP")
+B("c10-offset-added-twice", "C10", sub("interface.py", "            rounded_out += to_add_after_rounding\n", "            rounded_out += to_add_after_rounding\n            rounded_out += to_add_after_rounding\n"), "WRAP")
+B("c10-missing-spec-silently-skipped", "C10", sub("interface.py", "            if not (\n                params_key in params\n                and \"rounding\" in params[params_key]\n                and func_name in params[params_key][\"rounding\"]\n            ):\n                raise KeyError(", "            if not (\n                params_key in params\n                and \"rounding\" in params[params_key]\n            ):\n                raise KeyError("), "MISS")
+B("c10-invalid-direction", "C10", sub("parameters/eink_st.yaml", "direction: down", "direction: downwards", count=1), "SV")
+T("c10-remover-by-pop", "C10", sub("time_conversion.py", '        func.__info__ = {\n            key: value\n            for key, value in info.items()\n            if key != "params_key_for_rounding"\n        }', '        info = dict(info)\n        info.pop("params_key_for_rounding", None)\n        func.__info__ = info'))
+
+# ------------------------------------------------------------------ C11
+B("c11-max-branch-calls-min", "C11", sub("functions_loader.py", "                return grouped_max(source_col, group_id)", "                return grouped_min(source_col, group_id)"), "S-dispatch")
+B("c11-arguments-swapped", "C11", sub("functions_loader.py", "                return sum_by_p_id(column, p_id_to_aggregate_by, p_id_to_store_by)", "                return sum_by_p_id(column, p_id_to_store_by, p_id_to_aggregate_by)"), "S-dispatch")
+B("c11-backend-alias-swapped", "C11", sub("aggregation.py", "from _gettsim.aggregation_numpy import grouped_all as grouped_all_numpy", "from _gettsim.aggregation_numpy import grouped_any as grouped_all_numpy"), "S-backend")
+B("c11-user-specs-lose-precedence", "C11", sub("functions_loader.py", "    aggregate_by_group_dict = {\n        **aggregate_by_group_dict,\n        **user_provided_aggregate_by_group_specs,\n    }", "    aggregate_by_group_dict = {\n        **user_provided_aggregate_by_group_specs,\n        **aggregate_by_group_dict,\n    }"), "PREC")
+B("c11-bool-sum-stays-bool", "C11", sub("functions_loader.py", '    elif (source_col_type == bool) and (aggr in ["sum"]):', '    elif (source_col_type == bool) and (aggr in ["mean"]):'), "RT")
+B("c11-unimplemented-pointer-kind", "C11", sub("transfers/kindergeld.py", '"aggr": "sum"', '"aggr": "max"', count=2), "SPEC")
+T("c11-branches-reordered", "C11", [sub("functions_loader.py", '        if agg_specs["aggr"] == "sum":\n\n            @rename_arguments(\n                mapper=mapper,\n                annotations=annotations,\n            )\n            def aggregate_by_group_func(source_col, group_id):\n                return grouped_sum(source_col, group_id)\n\n        elif agg_specs["aggr"] == "mean":', '        if agg_specs["aggr"] == "mean":'), sub("functions_loader.py", '                return grouped_all(source_col, group_id)\n\n        else:', '                return grouped_all(source_col, group_id)\n\n        elif agg_specs["aggr"] == "sum":\n\n            @rename_arguments(\n                mapper=mapper,\n                annotations=annotations,\n            )\n            def aggregate_by_group_func(source_col, group_id):\n                return grouped_sum(source_col, group_id)\n\n        else:')])
